@@ -48,7 +48,7 @@ Q_SHARE = "C20-sharing-derivative-mutation"
 
 SHARING = ("filter_packages", "filter_packages_tags", "filter_tags", "choose_packages")
 COPYING = ("copy", "reverse_copy", "filter_packages_copy", "filter_packages_tags_copy",
-           "filter_tags_copy", "choose_packages_copy", "facet_collection")
+           "filter_tags_copy", "choose_packages_copy", "facet_collection", "qwrite_qread")
 DERIV = SHARING + COPYING + ("reverse",)
 
 
@@ -138,7 +138,7 @@ class MDB(object):
         n = MDB(self.share)
         share = self.share and op in SHARING
         cp = (lambda s: s) if share else set
-        if op == "copy":
+        if op in ("copy", "qwrite_qread"):
             n.A = {k: set(v) for k, v in A.items()}
             n.B = {k: set(v) for k, v in B.items()}
             n.optA, n.optB = set(optA), set(optB)
@@ -264,7 +264,7 @@ def generate(seed, run, tier):
             st = {"h": h, "op": "insert", "pkg": rq.choice(left),
                   "tags": sorted(set(rq.choice(right) for _ in range(rq.choice([0, 1, 1, 2, 3]))))}
         elif kind == "derive":
-            op = rq.choice(DERIV)
+            op = rq.choice(DERIV + ("reverse", "reverse"))
             flip = sim.handles[h][1]
             left, right = (TG, PK) if flip else (PK, TG)
             st = {"h": h, "op": op}
@@ -530,7 +530,14 @@ def execute(case):
             src = sut[hi]
             arg = st.get("arg")
             try:
-                if op in ("copy", "reverse", "reverse_copy", "facet_collection"):
+                if op == "qwrite_qread":
+                    import io
+                    buf = io.BytesIO()
+                    src.qwrite(buf)
+                    buf.seek(0)
+                    new = debtags.DB()
+                    new.qread(buf)
+                elif op in ("copy", "reverse", "reverse_copy", "facet_collection"):
                     new = getattr(src, op)()
                 elif op.startswith("filter_packages_tags"):
                     new = getattr(src, op)(pt_pred_fn(arg))
